@@ -125,11 +125,18 @@ def parse_kani(out):
     return res
 
 
+def _solver_flags(h):
+    """decision procedure behind CBMC for this harness (unit.json `solver`): CaDiCaL (Kani's default) when absent.
+    The harnesses whose obligation is `quotient by a constant` use z3 (CBMC's SMT2 back end): a SAT solver has to
+    prove two bit-blasted 64-bit dividers equivalent (> 10 min measured), z3 rewrites them to one term (seconds)."""
+    return ["--solver", h["solver"]] if h.get("solver") else []
+
+
 def run_harness(dst, h, tier, extra_flags):
     name = h["name"]
     timeout = h.get("timeout_s", 600) * (3 if tier == "thorough" else 1)
     mem = h.get("mem_gb", 12 if tier != "thorough" else 24)
-    cmd = ["cargo", "kani"] + KANI_FLAGS + extra_flags + ["--harness", name, "--exact"]
+    cmd = ["cargo", "kani"] + KANI_FLAGS + extra_flags + ["--harness", name, "--exact"] + _solver_flags(h)
     log = os.path.join(dst, "log_%s.txt" % name)
     status, rc, out, wall = _run(cmd, dst, timeout, mem, log)
     r = parse_kani(out)
@@ -139,16 +146,31 @@ def run_harness(dst, h, tier, extra_flags):
 
 def playback(dst, h, extra_flags):
     """ask Kani for concrete values of a failing harness"""
-    cmd = ["cargo", "kani"] + KANI_FLAGS + extra_flags + ["--harness", h["name"], "--exact", "-Z", "concrete-playback",
-                                                            "--concrete-playback=print"]
+    cmd = ["cargo", "kani"] + KANI_FLAGS + extra_flags + ["--harness", h["name"], "--exact"] + _solver_flags(h) + [
+        "-Z", "concrete-playback", "--concrete-playback=print"]
     status, rc, out, wall = _run(cmd, dst, h.get("timeout_s", 600), 12)
-    m = re.search(r"Concrete playback unit test for `[^`]*`:\s*```\s*(.*?)```", out, re.S)
-    if not m:
+    return parse_playback(out)
+
+
+def parse_playback(out):
+    """Kani prints one unit test per failed check AND per satisfied cover; keep the first one that belongs to a
+    failed assertion/overflow check (not a cover).  -> dict with the little-endian bytes of every kani::any()."""
+    blocks = re.findall(r"Concrete playback unit test for `[^`]*`:\s*```\s*(.*?)```", out, re.S)
+    blocks = [b for b in blocks if not re.search(r"Check for `cover`", b)]
+    if not blocks:
         return None
-    test = m.group(1)
-    vals = re.findall(r"//\s*(-?[0-9a-fx.e+]+(?:[iu](?:8|16|32|64|128|size))?|true|false|'.')\s*\n\s*vec!\[([0-9, ]*)\]", test)
+    test = blocks[0]
+    body = test.split("concrete_vals", 1)[-1]
+    raw = re.findall(r"vec!\[([0-9, ]*)\]", body)
+    vals_hex = []
+    for r in raw:
+        bs = [int(x) for x in r.replace(" ", "").split(",") if x]
+        if not bs:
+            continue
+        vals_hex.append("%x" % int.from_bytes(bytes(bs), "little"))
+    shown = re.findall(r"//\s*(\S+)\s*\n\s*vec!\[", body)
     return {"kind": "kani-concrete-playback", "unit_test": test.strip()[:6000],
-            "values_in_order_of_kani_any": [v[0] for v in vals]}
+            "values_in_order_of_kani_any": shown, "any_values_hex": ",".join(vals_hex)}
 
 
 def run_unit(u, repo, tier, seed, relock=False, prop=None):
@@ -177,8 +199,15 @@ def run_unit(u, repo, tier, seed, relock=False, prop=None):
         hs += rnd.sample(samp, min(k, len(samp)))
     elif tier == "thorough":
         hs += [h for h in samp if h not in hs]
-    res["checker_cmd"] = "cd %s && CARGO_NET_OFFLINE=true cargo kani %s --harness <each of %d harnesses> --exact" % (
-        dst, " ".join(KANI_FLAGS + extra), len(hs))
+    by_solver = {}
+    for h in hs:
+        by_solver[h.get("solver", "cadical")] = by_solver.get(h.get("solver", "cadical"), 0) + 1
+    res["checker_cmd"] = "cd %s && CARGO_NET_OFFLINE=true cargo kani %s --harness <each of %d harnesses> --exact [--solver: %s]" % (
+        dst, " ".join(KANI_FLAGS + extra), len(hs), ", ".join("%s x%d" % kv for kv in sorted(by_solver.items())))
+    for sv, n in sorted(by_solver.items()):
+        if sv != "cadical":
+            res["assumptions"].append("CBMC's SMT2 back end with %s decides %d harness(es) (quotient-by-constant obligations); "
+                                      "CaDiCaL decides the rest" % (sv, n))
     if not hs:
         res["wall_s"] = time.time() - t0
         return res
@@ -202,6 +231,7 @@ def run_unit(u, repo, tier, seed, relock=False, prop=None):
     for h, r in zip(hs, results):
         o = {"id": h["name"], "contract": h.get("contract", ""), "time_s": r.get("verification_time_s", r["wall_s"]),
              "bounded": bool(h.get("bounded")), "bound": h.get("bound", ""),
+             "solver": h.get("solver", "cadical"),
              "source": {"harness": "kani/%s/src/lib.rs :: %s" % (u.get("crate", name), h["name"])}}
         if r["run_status"] == "timeout":
             o["status"] = "undecided"
@@ -232,7 +262,20 @@ def run_unit(u, repo, tier, seed, relock=False, prop=None):
                 if w:
                     w["note"] = "values of kani::any() in call order; the harness is kani/%s/src/lib.rs::%s over text extracted from /repo" % (
                         u.get("crate", name), h["name"])
-                    o["witness"] = w
+                    o["kani_playback"] = w
+                    o["detail"] += "\nKani concrete playback (values of kani::any() in call order): %s" % w["values_in_order_of_kani_any"]
+                # the counterexample counts as a witness only once it fails on the REAL function (native crate with a
+                # path dependency on /repo, built on demand); otherwise the violation is reported without an input
+                if u.get("replay_native"):
+                    import witness
+                    d = witness.run_native(repo, u["replay_native"], "%s:%s" % (name, h["name"]), seed,
+                                           200000 if tier != "thorough" else 5000000, (w or {}).get("any_values_hex"))
+                    if d.get("found"):
+                        d["replayed_against"] = "the real crate in /repo (native harness /verif/%s, path dependency)" % u["replay_native"]["crate"]
+                        d["kani_playback"] = w
+                        o["witness"] = d
+                    else:
+                        o["detail"] += "\nnative replay on the real function: %s" % json.dumps(d)[:600]
             else:
                 o["status"] = "undecided"
                 o["detail"] = "failing harness not in obligations.lock"
